@@ -260,21 +260,289 @@ theorem tr_wellScoped (km : KindMap) (s : S1.Query) (st : Stmt) (h : s.tr km = s
 namespace Hop
 open Dawgs.C01.S2
 
-def joinsOf (ka kb : Option (List Nat)) : List Join :=
-  let ja : Join := .mk .inner (.table ["node"] (some "n0")) (some (joinOn "n0" "start_id" ka))
-  let jb : Join := .mk .inner (.table ["node"] (some "n1")) (some (joinOn "n1" "end_id" kb))
-  if ka.isNone && kb.isSome then [jb, ja] else [ja, jb]
-
-def whOf (kr : Option (List Nat)) : Option Expr := kr.map (fun ids => .bin "=" (col "e0" "kind_id") (.anyOf (kindsLit ids)))
-
-def frameQ (ka kr kb : Option (List Nat)) : Sql.Query :=
-  Sql.Query.simple (.select false [edgeComposite, nodeCompositeOf "n0", nodeCompositeOf "n1"] [.mk (.table ["edge"] (some "e0")) (joinsOf ka kb)] (whOf kr) [] none)
-
 def frameCols : List Col := [⟨"e0", "edgecomposite"⟩, ⟨"n0", "nodecomposite"⟩, ⟨"n1", "nodecomposite"⟩]
 
-/-- the hop frame binds for every choice of kind constraints (the kind-id lists are literals: their content is never inspected) -/
-theorem bFrame2 (ka kr kb : Option (List Nat)) : bQuery Γ0 ⟨[], []⟩ (frameQ ka kr kb) = some frameCols := by
-  cases ka <;> cases kb <;> cases kr <;> rfl
+-- generic "it binds" lemmas, for any scope
+
+def Binds (sc : Scope) (e : Expr) : Prop := ∃ ty, bExpr Γ0 sc e = some ty
+
+theorem bx_lit (sc : Scope) (l : Lit) (ty : String) : Binds sc (.lit l ty) := ⟨_, by rw [bExpr]⟩
+
+theorem bx_bin (sc : Scope) (op : String) (l r : Expr) (hl : Binds sc l) (hr : Binds sc r) : Binds sc (.bin op l r) := by
+  obtain ⟨a, ha⟩ := hl
+  obtain ⟨b, hb⟩ := hr
+  exact ⟨_, by rw [bExpr, ha, hb]; rfl⟩
+
+theorem bx_un (sc : Scope) (op : String) (e : Expr) (he : Binds sc e) : Binds sc (.un op e) := by
+  obtain ⟨a, ha⟩ := he
+  exact ⟨_, by rw [bExpr, ha]; rfl⟩
+
+theorem bx_paren (sc : Scope) (e : Expr) (he : Binds sc e) : Binds sc (.paren e) := by
+  obtain ⟨a, ha⟩ := he
+  exact ⟨_, by rw [bExpr, ha]⟩
+
+theorem bx_anyOf (sc : Scope) (e : Expr) (he : Binds sc e) : Binds sc (.anyOf e) := by
+  obtain ⟨a, ha⟩ := he
+  exact ⟨_, by rw [bExpr, ha]; rfl⟩
+
+theorem bx_cast (sc : Scope) (e : Expr) (ty : String) (he : Binds sc e) (hty : bType Γ0.cat ty = some ()) : Binds sc (.cast e ty) := by
+  obtain ⟨a, ha⟩ := he
+  exact ⟨ty, by rw [bExpr, ha]; simp only [bind, Option.bind, hty, pure]⟩
+
+theorem bx_call1 (sc : Scope) (fn : String) (e : Expr) (ty : String) (f : Func) (he : Binds sc e) (hf : bFunc fn Γ0.cat.funcs = some f)
+    (hacc : f.accepts 1 = true) (hty : bType Γ0.cat ty = some ()) : Binds sc (.call fn [e] false false ty) := by
+  obtain ⟨a, ha⟩ := he
+  have hacc' : f.accepts [e].length = true := hacc
+  refine ⟨(if knownTy ty == "" then callTy f fn [a] else ty), ?_⟩
+  rw [bExpr, bExprs, ha, bExprs]
+  simp only [bind, Option.bind, pure, hf, hacc', if_true, hty]
+
+theorem bType_empty : bType Γ0.cat "" = some () := by decide +kernel
+theorem bFunc_typeof : bFunc "jsonb_typeof" Γ0.cat.funcs = some ⟨"jsonb_typeof", [1], false, "text", []⟩ := by decide +kernel
+theorem bFunc_tojsonb : bFunc "to_jsonb" Γ0.cat.funcs = some ⟨"to_jsonb", [1], false, "jsonb", []⟩ := by decide +kernel
+
+/-- the columns the predicate language reads resolve under alias `t` in scope `sc` -/
+structure ColsAt (sc : Scope) (t : String) (edge : Bool) : Prop where
+  id : Binds sc (.compound [t, "id"])
+  props : Binds sc (.compound [t, "properties"])
+  kind : Binds sc (.compound [t, if edge then "kind_id" else "kind_ids"])
+
+theorem bx_arrow (sc : Scope) (t : String) (edge : Bool) (H : ColsAt sc t edge) (op k : String) :
+    Binds sc (.bin op (.compound [t, "properties"]) (S1.strLit k)) := bx_bin sc _ _ _ H.props (bx_lit sc _ _)
+
+theorem bx_jsonNull (sc : Scope) : Binds sc S1.jsonNull := bx_cast sc _ _ (bx_lit sc _ _) bType_jsonb
+
+/-- every lowered S1 predicate binds wherever its alias shows the entity's columns -/
+theorem bPredAt (km : KindMap) (sc : Scope) (t : String) (edge : Bool) (H : ColsAt sc t edge) :
+    ∀ (p : S1.Pred) (e : Expr), S1.Pred.trAt km t edge p = some e → Binds sc e
+  | .propEqStr k s, e, he => by
+    simp only [S1.Pred.trAt, Option.some.injEq] at he; subst he
+    exact bx_paren sc _ (bx_bin sc _ _ _
+      (bx_bin sc _ _ _ (bx_call1 sc _ _ _ _ (bx_arrow sc t edge H "->" k) bFunc_typeof (by decide) bType_empty) (bx_lit sc _ _))
+      (bx_bin sc _ _ _ (bx_arrow sc t edge H "->>" k) (bx_lit sc _ _)))
+  | .propEqInt neg k i, e, he => by
+    simp only [S1.Pred.trAt, Option.some.injEq] at he; subst he
+    exact bx_bin sc _ _ _ (bx_cast sc _ _ (bx_arrow sc t edge H "->" k) bType_jsonb)
+      (bx_call1 sc _ _ _ _ (bx_cast sc _ _ (bx_lit sc _ _) bType_int8) bFunc_tojsonb (by decide) bType_jsonb)
+  | .propIsNull k, e, he => by
+    simp only [S1.Pred.trAt, Option.some.injEq] at he; subst he
+    exact bx_paren sc _ (bx_bin sc _ _ _ (bx_un sc _ _ (bx_arrow sc t edge H "?" k))
+      (bx_bin sc _ _ _ (bx_arrow sc t edge H "->" k) (bx_jsonNull sc)))
+  | .propNotNull k, e, he => by
+    simp only [S1.Pred.trAt, Option.some.injEq] at he; subst he
+    exact bx_paren sc _ (bx_bin sc _ _ _ (bx_arrow sc t edge H "?" k)
+      (bx_un sc _ _ (bx_bin sc _ _ _ (bx_arrow sc t edge H "->" k) (bx_jsonNull sc))))
+  | .idCmp op i, e, he => by
+    simp only [S1.Pred.trAt, Option.some.injEq] at he; subst he
+    exact bx_bin sc _ _ _ H.id (bx_lit sc _ _)
+  | .kinds ks, e, he => by
+    simp only [S1.Pred.trAt] at he
+    cases hm : ks.mapM km.id? with
+    | none => rw [hm] at he; cases he
+    | some ids =>
+      rw [hm] at he
+      have hk := H.kind
+      cases edge with
+      | true => simp only [if_true, Option.some.injEq] at he hk; subst he; exact bx_bin sc _ _ _ hk (bx_anyOf sc _ (bx_lit sc _ _))
+      | false => simp only [Bool.false_eq_true, if_false, Option.some.injEq] at he hk; subst he; exact bx_bin sc _ _ _ hk (bx_lit sc _ _)
+  | .and p q, e, he => by
+    simp only [S1.Pred.trAt] at he
+    cases hp : S1.Pred.trAt km t edge p with
+    | none => simp [hp, bind, Option.bind] at he
+    | some a =>
+      cases hq : S1.Pred.trAt km t edge q with
+      | none => simp [hp, hq, bind, Option.bind] at he
+      | some b =>
+        simp [hp, hq, bind, Option.bind] at he
+        subst he
+        exact bx_bin sc _ _ _ (bPredAt km sc t edge H p a hp) (bPredAt km sc t edge H q b hq)
+  | .or p q, e, he => by
+    simp only [S1.Pred.trAt] at he
+    cases hp : S1.Pred.trAt km t edge p with
+    | none => simp [hp, bind, Option.bind] at he
+    | some a =>
+      cases hq : S1.Pred.trAt km t edge q with
+      | none => simp [hp, hq, bind, Option.bind] at he
+      | some b =>
+        simp [hp, hq, bind, Option.bind] at he
+        subst he
+        exact bx_bin sc _ _ _ (bPredAt km sc t edge H p a hp) (bPredAt km sc t edge H q b hq)
+  | .not p, e, he => by
+    simp only [S1.Pred.trAt] at he
+    cases hp : S1.Pred.trAt km t edge p with
+    | none => simp [hp, bind, Option.bind] at he
+    | some a =>
+      simp [hp, bind, Option.bind] at he
+      subst he
+      exact bx_un sc _ _ (bPredAt km sc t edge H p a hp)
+  | .paren p, e, he => by
+    simp only [S1.Pred.trAt] at he
+    cases hp : S1.Pred.trAt km t edge p with
+    | none => simp [hp, bind, Option.bind] at he
+    | some a =>
+      simp [hp, bind, Option.bind] at he
+      subst he
+      exact bx_paren sc _ (bPredAt km sc t edge H p a hp)
+
+theorem bPredsAnd (km : KindMap) (sc : Scope) (t : String) (edge : Bool) (H : ColsAt sc t edge) :
+    ∀ (ps : List S1.Pred) (e : Expr), predsAnd km t edge ps = some e → Binds sc e
+  | [], e, h => by simp [predsAnd] at h
+  | [p], e, h => by simp only [predsAnd] at h; exact bPredAt km sc t edge H p e h
+  | p :: p' :: ps, e, h => by
+    simp only [predsAnd] at h
+    cases hp : S1.Pred.trAt km t edge p with
+    | none => simp [hp, bind, Option.bind] at h
+    | some a =>
+      cases hq : predsAnd km t edge (p' :: ps) with
+      | none => simp [hp, hq, bind, Option.bind] at h
+      | some b =>
+        simp [hp, hq, bind, Option.bind] at h
+        subst h
+        exact bx_bin sc _ _ _ (bPredAt km sc t edge H p a hp) (bPredsAnd km sc t edge H (p' :: ps) b hq)
+
+def BindsOpt (sc : Scope) (c : Option Expr) : Prop := ∃ ty, bOpt Γ0 sc c = some ty
+
+theorem bindsOpt_some (sc : Scope) (e : Expr) (h : Binds sc e) : BindsOpt sc (some e) := by
+  obtain ⟨ty, h⟩ := h; exact ⟨ty, by rw [bOpt]; exact h⟩
+
+theorem bindsOpt_none (sc : Scope) : BindsOpt sc none := ⟨_, by rw [bOpt]⟩
+
+theorem binds_of_opt (sc : Scope) (e : Expr) (h : BindsOpt sc (some e)) : Binds sc e := by
+  obtain ⟨ty, h⟩ := h; rw [bOpt] at h; exact ⟨ty, h⟩
+
+theorem bPredsE (km : KindMap) (sc : Scope) (t : String) (edge : Bool) (H : ColsAt sc t edge) (ps : List S1.Pred) (pe : Option Expr)
+    (h : predsE km t edge ps = some pe) : BindsOpt sc pe := by
+  unfold predsE at h
+  cases hps : ps.isEmpty with
+  | true => simp only [hps, if_true, Option.some.injEq] at h; subst h; exact bindsOpt_none sc
+  | false =>
+    simp only [hps, Bool.false_eq_true, if_false, Option.map_eq_some_iff] at h
+    obtain ⟨e, he, rfl⟩ := h
+    exact bindsOpt_some sc _ (bx_paren sc _ (bPredsAnd km sc t edge H ps e he))
+
+theorem bBoth (sc : Scope) (p k : Option Expr) (hp : BindsOpt sc p) (hk : BindsOpt sc k) : BindsOpt sc (both p k) := by
+  cases p with
+  | none => exact hk
+  | some pe =>
+    cases k with
+    | none => exact hp
+    | some ke => exact bindsOpt_some sc _ (bx_bin sc _ _ _ (binds_of_opt sc pe hp) (binds_of_opt sc ke hk))
+
+theorem bNodeKindsE (sc : Scope) (al : String) (H : ColsAt sc al false) (kid : Option (List Nat)) : BindsOpt sc (nodeKindsE al kid) := by
+  cases kid with
+  | none => exact bindsOpt_none sc
+  | some ids =>
+    have hk := H.kind
+    simp only [Bool.false_eq_true, if_false] at hk
+    exact bindsOpt_some sc _ (bx_bin sc _ _ _ hk (bx_lit sc _ _))
+
+theorem bJoinOnC (sc : Scope) (al ep : String) (c : Option Expr) (hc : BindsOpt sc c) (hid : Binds sc (.compound [al, "id"]))
+    (hep : Binds sc (.compound ["e0", ep])) : BindsOpt sc (some (joinOnC al ep c)) := by
+  unfold joinOnC
+  cases c with
+  | none => exact bindsOpt_some sc _ (bx_bin sc _ _ _ hid hep)
+  | some ce => exact bindsOpt_some sc _ (bx_bin sc _ _ _ (binds_of_opt sc ce hc) (bx_bin sc _ _ _ hid hep))
+
+-- the FROM clause `edge e0 join node al1 on … join node al2 on …`
+
+def eRel : Rel := ⟨"e0", [⟨"id", "int8"⟩, ⟨"graph_id", "int4"⟩, ⟨"start_id", "int8"⟩, ⟨"end_id", "int8"⟩, ⟨"kind_id", "int2"⟩, ⟨"properties", "jsonb"⟩]⟩
+def nRel (al : String) : Rel := ⟨al, [⟨"id", "int8"⟩, ⟨"graph_id", "int4"⟩, ⟨"kind_ids", "int2[]"⟩, ⟨"properties", "jsonb"⟩]⟩
+
+def aliasOf (second flip : Bool) : String := if second == flip then "n0" else "n1"
+
+/-- FROM of the hop frame: first join under alias `al1`, second under `al2` -/
+theorem bFrom2 (al1 al2 : String) (hal : (al1 = "n0" ∧ al2 = "n1") ∨ (al1 = "n1" ∧ al2 = "n0")) (on1 on2 : Expr)
+    (h1 : BindsOpt ⟨[], [[eRel, nRel al1]]⟩ (some on1)) (h2 : BindsOpt ⟨[], [[eRel, nRel al1, nRel al2]]⟩ (some on2)) :
+    bFromClauses Γ0 ⟨[], []⟩ [] [.mk (.table ["edge"] (some "e0"))
+      [.mk .inner (.table ["node"] (some al1)) (some on1), .mk .inner (.table ["node"] (some al2)) (some on2)]] =
+      some [eRel, nRel al1, nRel al2] := by
+  obtain ⟨t1, h1⟩ := h1
+  obtain ⟨t2, h2⟩ := h2
+  have hE : bFromItem Γ0 ⟨[], []⟩ [] (.table ["edge"] (some "e0")) = some eRel := by decide +kernel
+  have hN : ∀ (vis : List Rel) (al : String), bFromItem Γ0 ⟨[], []⟩ vis (.table ["node"] (some al)) = some (nRel al) := by
+    intro vis al
+    rw [bFromItem]
+    have : bRelation Γ0.cat (⟨[], []⟩ : Scope).ctes ["node"] = some (nRel "node") := by decide +kernel
+    simp only [this, Option.bind_eq_bind, Option.bind_some, Option.getD_some, Option.pure_def]
+    rfl
+  have hA0 : bAddRte eRel [] [] = some [eRel] := by decide +kernel
+  rcases hal with ⟨rfl, rfl⟩ | ⟨rfl, rfl⟩
+  · have hA1 : bAddRte (nRel "n0") [] [eRel] = some [eRel, nRel "n0"] := by decide +kernel
+    have hA2 : bAddRte (nRel "n1") [] [eRel, nRel "n0"] = some [eRel, nRel "n0", nRel "n1"] := by decide +kernel
+    rw [bFromClauses, hE]
+    simp only [Option.bind_eq_bind, Option.bind_some, hA0]
+    rw [bJoins, hN, ]
+    simp only [Option.bind_eq_bind, Option.bind_some, List.nil_append, hA1, Scope.push, h1]
+    rw [bJoins, hN]
+    simp only [Option.bind_eq_bind, Option.bind_some, hA2, Scope.push, h2, bJoins, List.nil_append, bFromClauses]
+  · have hA1 : bAddRte (nRel "n1") [] [eRel] = some [eRel, nRel "n1"] := by decide +kernel
+    have hA2 : bAddRte (nRel "n0") [] [eRel, nRel "n1"] = some [eRel, nRel "n1", nRel "n0"] := by decide +kernel
+    rw [bFromClauses, hE]
+    simp only [Option.bind_eq_bind, Option.bind_some, hA0]
+    rw [bJoins, hN]
+    simp only [Option.bind_eq_bind, Option.bind_some, List.nil_append, hA1, Scope.push, h1]
+    rw [bJoins, hN]
+    simp only [Option.bind_eq_bind, Option.bind_some, hA2, Scope.push, h2, bJoins, List.nil_append, bFromClauses]
+
+theorem colsAt_J (lvl : List Rel) (t : String) (edge : Bool)
+    (h1 : bExpr Γ0 ⟨[], [lvl]⟩ (.compound [t, "id"]) = some "int8") (h2 : bExpr Γ0 ⟨[], [lvl]⟩ (.compound [t, "properties"]) = some "jsonb")
+    (h3 : ∃ ty, bExpr Γ0 ⟨[], [lvl]⟩ (.compound [t, if edge then "kind_id" else "kind_ids"]) = some ty) : ColsAt ⟨[], [lvl]⟩ t edge :=
+  ⟨⟨_, h1⟩, ⟨_, h2⟩, h3⟩
+
+/-- the hop frame binds, in either join order, for every kind constraint and every list of WHERE conjuncts -/
+theorem bFrame2 (km : KindMap) (flip : Bool) (ka kr kb : Option (List Nat)) (psa psr psb : List S1.Pred) (pa pr pb : Option Expr)
+    (hpa : predsE km "n0" false psa = some pa) (hpr : predsE km "e0" true psr = some pr) (hpb : predsE km "n1" false psb = some pb) :
+    bQuery Γ0 ⟨[], []⟩ (Sql.Query.simple (.select false [edgeComposite, nodeCompositeOf "n0", nodeCompositeOf "n1"]
+      [.mk (.table ["edge"] (some "e0"))
+        (if flip then [.mk .inner (.table ["node"] (some "n1")) (some (joinOnC "n1" "end_id" (both pb (nodeKindsE "n1" kb)))),
+                       .mk .inner (.table ["node"] (some "n0")) (some (joinOnC "n0" "start_id" (both pa (nodeKindsE "n0" ka))))]
+         else [.mk .inner (.table ["node"] (some "n0")) (some (joinOnC "n0" "start_id" (both pa (nodeKindsE "n0" ka)))),
+               .mk .inner (.table ["node"] (some "n1")) (some (joinOnC "n1" "end_id" (both pb (nodeKindsE "n1" kb))))])]
+      (both pr (kr.map (fun ids => .bin "=" (col "e0" "kind_id") (.anyOf (kindsLit ids))))) [] none)) = some frameCols := by
+  -- column facts in the four scopes
+  have onA : ∀ (lvl : List Rel), bExpr Γ0 ⟨[], [lvl]⟩ (.compound ["n0", "id"]) = some "int8" → bExpr Γ0 ⟨[], [lvl]⟩ (.compound ["n0", "properties"]) = some "jsonb" →
+      bExpr Γ0 ⟨[], [lvl]⟩ (.compound ["n0", "kind_ids"]) = some "int2[]" → bExpr Γ0 ⟨[], [lvl]⟩ (.compound ["e0", "start_id"]) = some "int8" →
+      BindsOpt ⟨[], [lvl]⟩ (some (joinOnC "n0" "start_id" (both pa (nodeKindsE "n0" ka)))) := by
+    intro lvl h1 h2 h3 h4
+    have H := colsAt_J lvl "n0" false h1 h2 ⟨_, h3⟩
+    exact bJoinOnC _ _ _ _ (bBoth _ _ _ (bPredsE km _ _ _ H psa pa hpa) (bNodeKindsE _ _ H ka)) ⟨_, h1⟩ ⟨_, h4⟩
+  have onB : ∀ (lvl : List Rel), bExpr Γ0 ⟨[], [lvl]⟩ (.compound ["n1", "id"]) = some "int8" → bExpr Γ0 ⟨[], [lvl]⟩ (.compound ["n1", "properties"]) = some "jsonb" →
+      bExpr Γ0 ⟨[], [lvl]⟩ (.compound ["n1", "kind_ids"]) = some "int2[]" → bExpr Γ0 ⟨[], [lvl]⟩ (.compound ["e0", "end_id"]) = some "int8" →
+      BindsOpt ⟨[], [lvl]⟩ (some (joinOnC "n1" "end_id" (both pb (nodeKindsE "n1" kb)))) := by
+    intro lvl h1 h2 h3 h4
+    have H := colsAt_J lvl "n1" false h1 h2 ⟨_, h3⟩
+    exact bJoinOnC _ _ _ _ (bBoth _ _ _ (bPredsE km _ _ _ H psb pb hpb) (bNodeKindsE _ _ H kb)) ⟨_, h1⟩ ⟨_, h4⟩
+  have whR : ∀ (lvl : List Rel), bExpr Γ0 ⟨[], [lvl]⟩ (.compound ["e0", "id"]) = some "int8" → bExpr Γ0 ⟨[], [lvl]⟩ (.compound ["e0", "properties"]) = some "jsonb" →
+      bExpr Γ0 ⟨[], [lvl]⟩ (.compound ["e0", "kind_id"]) = some "int2" →
+      BindsOpt ⟨[], [lvl]⟩ (both pr (kr.map (fun ids => .bin "=" (col "e0" "kind_id") (.anyOf (kindsLit ids))))) := by
+    intro lvl h1 h2 h3
+    have H := colsAt_J lvl "e0" true h1 h2 ⟨_, h3⟩
+    refine bBoth _ _ _ (bPredsE km _ _ _ H psr pr hpr) ?_
+    cases kr with
+    | none => exact bindsOpt_none _
+    | some ids => exact bindsOpt_some _ _ (bx_bin _ _ _ _ ⟨_, h3⟩ (bx_anyOf _ _ (bx_lit _ _ _)))
+  unfold Sql.Query.simple
+  rw [bQuery, bCtes]
+  simp only [Scope.withCtes, Option.bind_eq_bind, Option.bind_some]
+  rw [bSetExpr]
+  cases flip with
+  | false =>
+    have hfrom := bFrom2 "n0" "n1" (Or.inl ⟨rfl, rfl⟩) _ _
+      (onA [eRel, nRel "n0"] (by decide +kernel) (by decide +kernel) (by decide +kernel) (by decide +kernel))
+      (onB [eRel, nRel "n0", nRel "n1"] (by decide +kernel) (by decide +kernel) (by decide +kernel) (by decide +kernel))
+    obtain ⟨tw, hw⟩ := whR [eRel, nRel "n0", nRel "n1"] (by decide +kernel) (by decide +kernel) (by decide +kernel)
+    have hproj : bProj Γ0 ⟨[], [[eRel, nRel "n0", nRel "n1"]]⟩ [eRel, nRel "n0", nRel "n1"] [edgeComposite, nodeCompositeOf "n0", nodeCompositeOf "n1"] = some frameCols := by
+      decide +kernel
+    simp only [Bool.false_eq_true, if_false, hfrom, Scope.push, Option.bind_eq_bind, Option.bind_some, hw, hproj, bGroupBy, bOpt, bOrderBy,
+      Option.pure_def]
+  | true =>
+    have hfrom := bFrom2 "n1" "n0" (Or.inr ⟨rfl, rfl⟩) _ _
+      (onB [eRel, nRel "n1"] (by decide +kernel) (by decide +kernel) (by decide +kernel) (by decide +kernel))
+      (onA [eRel, nRel "n1", nRel "n0"] (by decide +kernel) (by decide +kernel) (by decide +kernel) (by decide +kernel))
+    obtain ⟨tw, hw⟩ := whR [eRel, nRel "n1", nRel "n0"] (by decide +kernel) (by decide +kernel) (by decide +kernel)
+    have hproj : bProj Γ0 ⟨[], [[eRel, nRel "n1", nRel "n0"]]⟩ [eRel, nRel "n1", nRel "n0"] [edgeComposite, nodeCompositeOf "n0", nodeCompositeOf "n1"] = some frameCols := by
+      decide +kernel
+    simp only [if_true, hfrom, Scope.push, Option.bind_eq_bind, Option.bind_some, hw, hproj, bGroupBy, bOpt, bOrderBy, Option.pure_def]
 
 def s0Rel2 : Rel := ⟨"s0", frameCols⟩
 def scO2 : Scope := ⟨[s0Rel2], [[s0Rel2]]⟩
@@ -303,9 +571,10 @@ theorem bProjItems2 (q : S2.Query) : ∀ (items : List S2.Item), ∃ cols, bProj
     · simp only [hty, hcols, Option.bind_eq_bind, Option.bind_some, Option.pure_def]
     · intro hh; exact item2_not_wildcard q it hh
 
-/-- THE FRAGMENT THEOREM, stage S2a: every one-hop statement passes the verified binder under the schema catalogue with no parameters -/
-theorem tr_wellScoped2 (km : KindMap) (s : S2.Query) (st : Stmt) (h : s.tr km = some st) : wellScoped Γ0 st = true := by
-  unfold S2.Query.tr at h
+/-- THE FRAGMENT THEOREM, stage S2 (one hop with WHERE, either join order): every statement passes the verified binder under the schema
+catalogue with no parameters -/
+theorem tr_wellScoped2 (km : KindMap) (s : S2.Query) (flip : Bool) (st : Stmt) (h : s.trWith km flip = some st) : wellScoped Γ0 st = true := by
+  unfold S2.Query.trWith at h
   cases hwf : s.wf with
   | false => simp [hwf] at h
   | true =>
@@ -313,34 +582,42 @@ theorem tr_wellScoped2 (km : KindMap) (s : S2.Query) (st : Stmt) (h : s.tr km = 
     cases hka : kindIds? km s.akinds with
     | none => simp [hka] at h
     | some ka =>
-      cases hkr : kindIds? km s.rkinds with
-      | none => simp [hka, hkr] at h
-      | some kr =>
-        cases hkb : kindIds? km s.bkinds with
-        | none => simp [hka, hkr, hkb] at h
-        | some kb =>
-          simp only [hka, hkr, hkb, Option.some.injEq] at h
-          subst h
-          obtain ⟨cols, hcols⟩ := bProjItems2 s s.items
-          have hcols' : bProj Γ0 ⟨[s0Rel2], [[s0Rel2]]⟩ [s0Rel2] (s.items.map (S2.Item.tr s)) = some cols := hcols
-          have hfr := bFrame2 ka kr kb
-          unfold frameQ joinsOf whOf at hfr
-          unfold wellScoped
-          rw [bStmt, bQuery, bCtes]
-          case x_2 => intro _ _ _ _ _ _ _ _ hh; cases hh
-          simp only [Scope.empty, Scope.withCtes, hfr, Option.bind_eq_bind, Option.bind_some, bShape, List.contains_nil, Bool.false_eq_true,
-            if_false, bCtes]
-          rw [bSetExpr]
-          have hs0 : (⟨"s0", frameCols⟩ : Rel) = s0Rel2 := rfl
-          simp only [hs0, hFromO2, Scope.push, Option.bind_eq_bind, Option.bind_some, bOpt, hcols', bGroupBy, Option.pure_def, isSelect, bOrderBy,
-            Option.isSome_some]
+    cases hkr : kindIds? km s.rkinds with
+    | none => simp [hka, hkr] at h
+    | some kr =>
+    cases hkb : kindIds? km s.bkinds with
+    | none => simp [hka, hkr, hkb] at h
+    | some kb =>
+    cases hpa : predsE km "n0" false (s.preds .a) with
+    | none => simp [hka, hkr, hkb, hpa] at h
+    | some pa =>
+    cases hpr : predsE km "e0" true (s.preds .r) with
+    | none => simp [hka, hkr, hkb, hpa, hpr] at h
+    | some pr =>
+    cases hpb : predsE km "n1" false (s.preds .b) with
+    | none => simp [hka, hkr, hkb, hpa, hpr, hpb] at h
+    | some pb =>
+    simp only [hka, hkr, hkb, hpa, hpr, hpb, Option.some.injEq] at h
+    subst h
+    obtain ⟨cols, hcols⟩ := bProjItems2 s s.items
+    have hcols' : bProj Γ0 ⟨[s0Rel2], [[s0Rel2]]⟩ [s0Rel2] (s.items.map (S2.Item.tr s)) = some cols := hcols
+    have hfr := bFrame2 km flip ka kr kb (s.preds .a) (s.preds .r) (s.preds .b) pa pr pb hpa hpr hpb
+    unfold wellScoped
+    rw [bStmt, bQuery, bCtes]
+    case x_2 => intro _ _ _ _ _ _ _ _ hh; cases hh
+    simp only [Scope.empty, Scope.withCtes, hfr, Option.bind_eq_bind, Option.bind_some, bShape, List.contains_nil, Bool.false_eq_true,
+      if_false, bCtes]
+    rw [bSetExpr]
+    have hs0 : (⟨"s0", frameCols⟩ : Rel) = s0Rel2 := rfl
+    simp only [hs0, hFromO2, Scope.push, Option.bind_eq_bind, Option.bind_some, bOpt, hcols', bGroupBy, Option.pure_def, bOrderBy,
+      Option.isSome_some]
 
 end Hop
 
-/-- both proved stages: every statement of `tr2` is closed and carries no parameters -/
-theorem tr2_wellScoped (km : KindMap) (q : Cy.Query) (st : Stmt) (ps : List (String × Val)) (h : C01.tr2 km q = some (st, ps)) :
-    wellScoped Γ0 st = true ∧ ps = [] := by
-  unfold C01.tr2 at h
+/-- both proved stages, every join-order choice: every statement of `tr2F` is closed and carries no parameters -/
+theorem tr2_wellScoped (flipOf : C01.S2.Query → Bool) (km : KindMap) (q : Cy.Query) (st : Stmt) (ps : List (String × Val))
+    (h : C01.tr2F flipOf km q = some (st, ps)) : wellScoped Γ0 st = true ∧ ps = [] := by
+  unfold C01.tr2F at h
   cases h1 : C01.tr km q with
   | some r =>
     rw [h1] at h; cases h
@@ -362,6 +639,6 @@ theorem tr2_wellScoped (km : KindMap) (q : Cy.Query) (st : Stmt) (ps : List (Str
       simp only [Option.map_eq_some_iff] at h
       obtain ⟨st', hst, heq⟩ := h
       cases heq
-      exact ⟨Hop.tr_wellScoped2 km s _ hst, rfl⟩
+      exact ⟨Hop.tr_wellScoped2 km s _ _ hst, rfl⟩
 
 end Dawgs.C03.Frag
